@@ -200,4 +200,56 @@ theorem fibre_sums_total {n g : ℕ} (L : Fin n → Fin g) (w : Fin n → ℝ) :
     ∑ j : Fin g, ∑ t : Fin n, (if L t = j then w t else 0) = ∑ t, w t := by
   rw [Finset.sum_comm]
   simp
+
+/-- C07 (Moore–Penrose facts for a Gram matrix): if G⁺ is a generalised inverse of G = AᵀA with G⁺G symmetric (two of the Penrose conditions), then A G⁺ G = A. -/
+theorem gram_pinv_absorbs {m n : ℕ} (A : Matrix (Fin m) (Fin n) ℝ) (Gp : Matrix (Fin n) (Fin n) ℝ)
+    (h1 : (Aᵀ * A) * Gp * (Aᵀ * A) = Aᵀ * A) (h3 : (Gp * (Aᵀ * A))ᵀ = Gp * (Aᵀ * A)) :
+    A * (Gp * (Aᵀ * A)) = A := by
+  set G := Aᵀ * A with hG
+  set P := Gp * G with hP
+  have hGP : G * P = G := by rw [hP, ← Matrix.mul_assoc]; exact h1
+  have hE : (A - A * P)ᵀ * (A - A * P) = 0 := by
+    have e1 : (A - A * P)ᵀ = Aᵀ - P * Aᵀ := by
+      rw [transpose_sub, transpose_mul, h3]
+    rw [e1, Matrix.sub_mul, Matrix.mul_sub, Matrix.mul_sub]
+    have a1 : Aᵀ * (A * P) = G * P := by rw [← Matrix.mul_assoc]
+    have a2 : P * Aᵀ * A = P * G := by rw [Matrix.mul_assoc]
+    have a3 : P * Aᵀ * (A * P) = P * (G * P) := by
+      rw [Matrix.mul_assoc, ← Matrix.mul_assoc Aᵀ A P]
+    rw [a1, a2, a3, hGP]
+    simp [hG]
+  have hz : A - A * P = 0 := by
+    have := (Matrix.conjTranspose_mul_self_eq_zero (A := A - A * P)).mp (by simpa [Matrix.conjTranspose_eq_transpose_of_trivial] using hE)
+    exact this
+  have := sub_eq_zero.mp hz
+  exact this.symm
+
+/-- C07: the companion fact G G⁺ Aᵀ = Aᵀ for G = AᵀA, from G G⁺ G = G and G G⁺ symmetric. -/
+theorem gram_pinv_absorbs_left {m n : ℕ} (A : Matrix (Fin m) (Fin n) ℝ) (Gp : Matrix (Fin n) (Fin n) ℝ)
+    (h1 : (Aᵀ * A) * Gp * (Aᵀ * A) = Aᵀ * A) (h4 : ((Aᵀ * A) * Gp)ᵀ = (Aᵀ * A) * Gp) :
+    (Aᵀ * A) * Gp * Aᵀ = Aᵀ := by
+  set G := Aᵀ * A with hG
+  set Q := G * Gp with hQ
+  have hGs : Gᵀ = G := by rw [hG, transpose_mul, transpose_transpose]
+  have hQG : Q * G = G := h1
+  have hGQ : G * Q = G := by
+    have := congrArg transpose hQG
+    rw [transpose_mul, h4, hGs] at this
+    exact this
+  have hE : (A - A * Q)ᵀ * (A - A * Q) = 0 := by
+    have e1 : (A - A * Q)ᵀ = Aᵀ - Q * Aᵀ := by
+      rw [transpose_sub, transpose_mul, h4]
+    rw [e1, Matrix.sub_mul, Matrix.mul_sub, Matrix.mul_sub]
+    have a1 : Aᵀ * (A * Q) = G * Q := by rw [← Matrix.mul_assoc]
+    have a2 : Q * Aᵀ * A = Q * G := by rw [Matrix.mul_assoc]
+    have a3 : Q * Aᵀ * (A * Q) = Q * (G * Q) := by
+      rw [Matrix.mul_assoc, ← Matrix.mul_assoc Aᵀ A Q]
+    rw [a1, a2, a3, hGQ, hQG]
+    simp [hG]
+  have hz : A - A * Q = 0 :=
+    (Matrix.conjTranspose_mul_self_eq_zero (A := A - A * Q)).mp (by simpa [Matrix.conjTranspose_eq_transpose_of_trivial] using hE)
+  have hAQ : A * Q = A := (sub_eq_zero.mp hz).symm
+  have := congrArg transpose hAQ
+  rw [transpose_mul, h4] at this
+  exact this
 end ThirdSession
